@@ -110,6 +110,11 @@ class App(AV):
         return f"{self.op}({', '.join(map(repr, self.args))})"
 
 
+def _concrete(v):
+    """Constants and tuples/lists of constants: equality between two of them is decided."""
+    return isinstance(v, Const) or (isinstance(v, ListV) and all(_concrete(x) for x in v.items))
+
+
 class ListV(AV):
     __slots__ = ("items", "kind")
     __hash__ = AV.__hash__
@@ -2118,8 +2123,8 @@ class Interp:
                 if base.kind == "set" and args[0] in base.items:
                     return [(cfg, NONE)]
                 return rebind(ListV(base.items + (args[0],), base.kind))
-            if meth in ("discard", "remove") and len(args) == 1 and (isinstance(args[0], Const) or args[0] in base.items) \
-                    and all(isinstance(x, Const) or x == args[0] for x in base.items):
+            if meth in ("discard", "remove") and len(args) == 1 and (_concrete(args[0]) or args[0] in base.items) \
+                    and all(_concrete(x) or x == args[0] for x in base.items):
                 if args[0] in base.items:
                     items = list(base.items)
                     items.remove(args[0])
